@@ -14,12 +14,36 @@ use std::collections::BTreeMap;
 
 pub struct C02;
 
-// short strings built to collide under concatenation, plus pairs of long strings that differ only in
-// their last character (a key that looks at a prefix or a fixed-size digest of less than everything
-// would confuse them)
-const CHAINS: [&str; 6] = ["", "a", "ab", "abc", "zzzzzzzzzzzzzzzzzzzzzzzzzzzzzzzzzzzzzzzzzzzzzzzzzzzzzzzzzzzzzzzzzzzzzzzz-1", "zzzzzzzzzzzzzzzzzzzzzzzzzzzzzzzzzzzzzzzzzzzzzzzzzzzzzzzzzzzzzzzzzzzzzzzz-2"];
-const IDS: [&str; 6] = ["", "c", "bc", "b", "0x00000000000000000000000000000000000000000000000000000000000000000000-1", "0x00000000000000000000000000000000000000000000000000000000000000000000-2"];
-const NC: u8 = 6;
+// Pools built so that different (chain, id) pairs consist of the same characters split differently:
+// under plain concatenation ("a"+"bc" = "ab"+"c" = "abc"+""), and under concatenation with a separator
+// ("x"+"_"+"y_z" = "x_y"+"_"+"z", likewise for ":"), plus pairs of long strings that differ only in their
+// last character (a key that looks at a prefix or at less than everything would confuse them).
+const CHAINS: [&str; 10] = [
+    "",
+    "a",
+    "ab",
+    "abc",
+    "zzzzzzzzzzzzzzzzzzzzzzzzzzzzzzzzzzzzzzzzzzzzzzzzzzzzzzzzzzzzzzzzzzzzzzzz-1",
+    "zzzzzzzzzzzzzzzzzzzzzzzzzzzzzzzzzzzzzzzzzzzzzzzzzzzzzzzzzzzzzzzzzzzzzzzz-2",
+    "x",
+    "x_y",
+    "p",
+    "p:q",
+];
+const IDS: [&str; 10] = [
+    "",
+    "c",
+    "bc",
+    "b",
+    "0x00000000000000000000000000000000000000000000000000000000000000000000-1",
+    "0x00000000000000000000000000000000000000000000000000000000000000000000-2",
+    "y_z",
+    "z",
+    "q:r",
+    "r",
+];
+const NC: u8 = 10;
+const JOINERS: [&str; 3] = ["", "_", ":"];
 const SRCS: [&str; 3] = ["src", "src2", ""];
 
 #[derive(Clone, Copy, Debug, Serialize, Deserialize, PartialEq, Eq, PartialOrd, Ord)]
@@ -57,7 +81,7 @@ fn op() -> impl Strategy<Value = Op> {
     prop_oneof![
         4 => proptest::collection::vec(mref(), 1..5).prop_map(Op::Approve),
         2 => (0u8..3, mref(), prop_oneof![4 => Just(true), 1 => Just(false)]).prop_map(|(caller, m, authorised)| Op::Validate { caller, m, authorised }),
-        5 => (0u8..36, 0u8..8, prop_oneof![6 => Just(true), 1 => Just(false)]).prop_map(|(slot, change, authorised)| Op::ValidateStored { slot, change, authorised }),
+        5 => (0u8..100, 0u8..8, prop_oneof![6 => Just(true), 1 => Just(false)]).prop_map(|(slot, change, authorised)| Op::ValidateStored { slot, change, authorised }),
         1 => mref().prop_map(|m| Op::ValidateAsOther { m }),
         1 => (1u8..90).prop_map(Op::AdvanceDays),
     ]
@@ -111,7 +135,7 @@ impl Property for C02 {
         "C02"
     }
     fn rule(&self) -> &'static str {
-        "proptest histories (<=30 quick / <=60 thorough ops) of batched approvals (with in-batch duplicates and re-use of known ids), consumption attempts (probe contract calling as itself, accounts with/without authorisation, exact replay of a stored message or with one field changed, a contract naming another address) and ledger advancement by 1-89 days (<= 250 days in total; statuses must not decay) over pools built to collide: chains {\"\",a,ab,abc, two 70-character strings differing in the last character} x ids {\"\",c,bc,b, two 70-character strings differing in the last character}; oracle = reference map (chain,id)->NotApproved/Approved(msg)/Executed moving only forward, event trace per op, sweep of is_message_executed over all 36 pairs and is_message_approved over stored messages and one-field variants after every op. non-trivial = history re-approves an executed id, or consumes with exactly one mismatching field after an approval, or has an in-batch duplicate id, or touches two ids whose chain||id concatenations coincide"
+        "proptest histories (<=30 quick / <=60 thorough ops) of batched approvals (with in-batch duplicates and re-use of known ids), consumption attempts (probe contract calling as itself, accounts with/without authorisation, exact replay of a stored message or with one field changed, a contract naming another address) and ledger advancement by 1-89 days (<= 250 days in total; statuses must not decay) over pools built to collide: 10 chains x 10 ids such that several pairs consist of the same characters split differently between chain and id (plain concatenation: a+bc = ab+c = abc+\"\"; with separators: x + y_z vs x_y + z, p + q:r vs p:q + r) and two pairs of 70-character strings differing only in the last character; oracle = reference map (chain,id)->NotApproved/Approved(msg)/Executed moving only forward, event trace per op, sweep of is_message_executed over every known id and every id that collides with a known one and is_message_approved over stored messages and one-field variants after every op. non-trivial = history re-approves an executed id, or consumes with exactly one mismatching field after an approval, or has an in-batch duplicate id, or touches two ids whose chain||id concatenations coincide"
     }
     fn cases(&self, tier: Tier) -> u64 {
         tier.pick(3000, 40000)
@@ -302,16 +326,28 @@ impl Property for C02 {
                 }
             }
             for k in &touched {
-                let cat = format!("{}{}", CHAINS[k.0 as usize], IDS[k.1 as usize]);
-                if touched_concat.iter().any(|(c, kk)| *c == cat && kk != k) {
-                    cx.label("colliding_concatenation");
-                    nontrivial = true;
+                for j in JOINERS {
+                    let cat = format!("{}{}{}", CHAINS[k.0 as usize], j, IDS[k.1 as usize]);
+                    if touched_concat.iter().any(|(c, kk)| *c == cat && kk != k) {
+                        cx.label("colliding_concatenation");
+                        nontrivial = true;
+                    }
+                    touched_concat.insert((cat, *k));
                 }
-                touched_concat.insert((cat, *k));
             }
             // sweep
+            let mut interesting: std::collections::BTreeSet<(u8, u8)> = model.keys().cloned().collect();
+            interesting.extend(touched.iter().cloned());
+            let base: Vec<(u8, u8)> = interesting.iter().cloned().collect();
             for c in 0..NC {
                 for i in 0..NC {
+                    if base.iter().any(|k| *k != (c, i) && JOINERS.iter().any(|j| format!("{}{}{}", CHAINS[k.0 as usize], j, IDS[k.1 as usize]) == format!("{}{}{}", CHAINS[c as usize], j, IDS[i as usize]))) {
+                        interesting.insert((c, i));
+                    }
+                }
+            }
+            for (c, i) in interesting.iter().cloned() {
+                {
                     let st = model.get(&(c, i));
                     let ex = w.executed(c, i);
                     ensure_p!(
